@@ -48,6 +48,10 @@ type Template struct {
 	tokens []*Token
 	parser *Parser
 
+	// how deeply this template was loaded by other templates (include, extends, import,
+	// ssi) while they were compiled; bounded by maxTemplateDepth
+	depth int
+
 	// first come, first serve (it's important to not override existing entries in here)
 	level          int
 	parent         *Template
@@ -63,16 +67,22 @@ type Template struct {
 	Options *Options
 }
 
+// maxTemplateDepth bounds how deeply templates may load (at compile time) or execute (at
+// execution time) other templates through include, extends, import and ssi. Templates
+// that refer to each other in a cycle end in an error instead of exhausting the stack.
+const maxTemplateDepth = 100
+
 func newTemplateString(set *TemplateSet, tpl []byte) (*Template, error) {
-	return newTemplate(set, "<string>", true, tpl)
+	return newTemplate(set, "<string>", true, tpl, 0)
 }
 
-func newTemplate(set *TemplateSet, name string, isTplString bool, tpl []byte) (*Template, error) {
+func newTemplate(set *TemplateSet, name string, isTplString bool, tpl []byte, depth int) (*Template, error) {
 	strTpl := string(tpl)
 
 	// Create the template
 	t := &Template{
 		set:            set,
+		depth:          depth,
 		isTplString:    isTplString,
 		name:           name,
 		tpl:            strTpl,
@@ -147,11 +157,22 @@ func (tpl *Template) newContextForExecution(context Context) (*Template, *Execut
 	return parent, ctx, nil
 }
 
-func (tpl *Template) execute(context Context, writer TemplateWriter) error {
+// execute runs the template; depth tells how many templates are executing this one
+// through include/ssi (0 for a template executed by the caller).
+func (tpl *Template) execute(context Context, writer TemplateWriter, depth int) error {
+	if depth > maxTemplateDepth {
+		return &Error{
+			Filename:  tpl.name,
+			Sender:    "execution",
+			OrigError: fmt.Errorf("maximum template nesting depth reached (max is %d): templates including each other in a cycle?", maxTemplateDepth),
+		}
+	}
+
 	parent, ctx, err := tpl.newContextForExecution(context)
 	if err != nil {
 		return err
 	}
+	ctx.depth = depth
 
 	// Run the selected document
 	if err := parent.root.Execute(ctx, writer); err != nil {
@@ -163,18 +184,18 @@ func (tpl *Template) execute(context Context, writer TemplateWriter) error {
 
 func (tpl *Template) newTemplateWriterAndExecute(context Context, writer io.Writer) error {
 	tw := &templateWriter{w: writer}
-	if err := tpl.execute(context, tw); err != nil {
+	if err := tpl.execute(context, tw, 0); err != nil {
 		return err
 	}
 	// (the error of the caller's writer, if it failed)
 	return tw.err
 }
 
-func (tpl *Template) newBufferAndExecute(context Context) (*bytes.Buffer, error) {
+func (tpl *Template) newBufferAndExecute(context Context, depth int) (*bytes.Buffer, error) {
 	// Create output buffer
 	// We assume that the rendered template will be 30% larger
 	buffer := bytes.NewBuffer(make([]byte, 0, int(float64(tpl.size)*1.3)))
-	if err := tpl.execute(context, buffer); err != nil {
+	if err := tpl.execute(context, buffer, depth); err != nil {
 		return nil, err
 	}
 	return buffer, nil
@@ -184,7 +205,13 @@ func (tpl *Template) newBufferAndExecute(context Context) (*bytes.Buffer, error)
 // on success. Context can be nil. Nothing is written on error; instead the error
 // is being returned.
 func (tpl *Template) ExecuteWriter(context Context, writer io.Writer) error {
-	buf, err := tpl.newBufferAndExecute(context)
+	return tpl.executeWriterNested(context, writer, 0)
+}
+
+// executeWriterNested is ExecuteWriter for a template that is executed by another one
+// (include) at the given nesting depth.
+func (tpl *Template) executeWriterNested(context Context, writer io.Writer, depth int) error {
+	buf, err := tpl.newBufferAndExecute(context, depth)
 	if err != nil {
 		return err
 	}
@@ -207,7 +234,7 @@ func (tpl *Template) ExecuteWriterUnbuffered(context Context, writer io.Writer) 
 // Executes the template and returns the rendered template as a []byte
 func (tpl *Template) ExecuteBytes(context Context) ([]byte, error) {
 	// Execute template
-	buffer, err := tpl.newBufferAndExecute(context)
+	buffer, err := tpl.newBufferAndExecute(context, 0)
 	if err != nil {
 		return nil, err
 	}
@@ -217,7 +244,7 @@ func (tpl *Template) ExecuteBytes(context Context) ([]byte, error) {
 // Executes the template and returns the rendered template as a string
 func (tpl *Template) Execute(context Context) (string, error) {
 	// Execute template
-	buffer, err := tpl.newBufferAndExecute(context)
+	buffer, err := tpl.newBufferAndExecute(context, 0)
 	if err != nil {
 		return "", err
 	}
